@@ -3,8 +3,15 @@
 
    msg  = { m_uid; m_flags (permanent flags); m_recent (the stored \Recent bit);
             m_content (opaque identity of the bytes, for C03/C10 users) }
-   mbox = { mb_readonly; mb_max_uid; mb_msgs (the dict _messages, insertion order
-            = ascending uid); mb_dead; mb_log }
+   mbox = { mb_md (which backend); mb_readonly; mb_max_uid; mb_msgs (the dict _messages,
+            insertion order = ascending uid; maildir: the uidlist records whose file exists);
+            mb_dead; mb_log }
+   A maildir mailbox (mb_md = true; pymap/backend/maildir/mailbox.py) is the same record:
+   uids start at 1, next_uid = mb_max_uid + 1, only system flags can be stored, get()/update()
+   of a message whose file is gone work on the session's own cached copy.  It has no
+   modification log and no shared orphans: mb_log and mb_dead are still maintained for it, as
+   ghost state that no maildir operation reads (they let one mailbox invariant serve both
+   backends).
    mb_dead: the dict backend shares its Message objects with every session's
    cache (SynchronizedMessages._cache).  A message removed from _messages lives
    on in those caches with the flags it had when it was removed and is never
@@ -12,14 +19,14 @@
    keeps these orphans in [mb_dead] and lets session caches read through
    ([mb_cached]) — this is the aliasing, made explicit.
    API (names follow MailboxData)
-     mb_new readonly                     MailboxData() (+ the demo loader's _readonly)
+     mb_new md readonly                  MailboxData() (+ the demo loader's _readonly)
      mb_alive uid b / mb_is_alive        _messages.get(uid)
      mb_cached uid b                     what a session's _cache[uid] reads now
      mb_append fl recent content b       append -> (b', uid)
      mb_copy_from m recent b             the destination half of copy/move -> (b', uid)
      mb_pop uid b                        the source half of move -> option (b', m)
-     mb_get uid b                        get(uid, cached) -> option (m, expunged?)  (None = IndexError/TypeError)
-     mb_update uid op fl b               update(uid, cached, fl, op) -> option (b', m, expunged?)
+     mb_get uid cf b                     get(uid, cached) -> option (m, expunged?)  (None = IndexError/TypeError)
+     mb_update uid cf op fl b            update(uid, cached, fl, op) -> option (b', m, expunged?)
      mb_delete uids b                    delete(uids)
      mb_claim_recent b                   claim_recent -> (b', claimed uids)
      mb_uids b                           ascending list of existing uids
@@ -33,15 +40,22 @@ From PV Require Import Base.Prelude Store.Base Store.Flags Store.ModSeq.
 Record msg := MkMsg { m_uid : N; m_flags : flags; m_recent : bool; m_content : N }.
 
 Record mbox := MkBox {
+  mb_md : bool;          (* true: a mailbox of the maildir backend *)
   mb_readonly : bool;
   mb_max_uid : N;
   mb_msgs : list msg;
   mb_dead : list msg;
   mb_log : mslog }.
 
-Definition DICT_UID_BASE : N := 100.   (* MailboxData._max_uid = 100 *)
+Definition DICT_UID_BASE : N := 100.   (* dict MailboxData._max_uid = 100 *)
+(* uids start above the base: 101.. in the dict backend, 1.. in a fresh dovecot-uidlist *)
+Definition uid_base (md : bool) : N := if md then 0%N else DICT_UID_BASE.
 
-Definition mb_new (readonly : bool) : mbox := MkBox readonly DICT_UID_BASE [] [] ms_empty.
+Definition mb_new (md readonly : bool) : mbox := MkBox md readonly (uid_base md) [] [] ms_empty.
+
+(* flags a mailbox can store: maildir keeps only what MaildirFlags.to_maildir can
+   encode in the file name (system flags; no dovecot-keywords file is configured) *)
+Definition storable (md : bool) (fl : flags) : flags := if md then perm_intersect fl else fl.
 
 Fixpoint find_msg (uid : N) (l : list msg) : option msg :=
   match l with
@@ -72,11 +86,12 @@ Definition mb_cached (uid : N) (b : mbox) : option msg :=
   end.
 
 Definition with_log (b : mbox) (log : mslog) : mbox :=
-  MkBox (mb_readonly b) (mb_max_uid b) (mb_msgs b) (mb_dead b) log.
+  MkBox (mb_md b) (mb_readonly b) (mb_max_uid b) (mb_msgs b) (mb_dead b) log.
 
 Definition mb_append (fl : flags) (recent : bool) (content : N) (b : mbox) : mbox * N :=
   let uid := (mb_max_uid b + 1)%N in
-  (MkBox (mb_readonly b) uid (mb_msgs b ++ [MkMsg uid fl recent content]) (mb_dead b)
+  (MkBox (mb_md b) (mb_readonly b) uid
+         (mb_msgs b ++ [MkMsg uid (storable (mb_md b) fl) recent content]) (mb_dead b)
          (ms_update [uid] (mb_log b)), uid).
 
 Definition mb_copy_from (m : msg) (recent : bool) (b : mbox) : mbox * N :=
@@ -86,11 +101,24 @@ Definition mb_pop (uid : N) (b : mbox) : option (mbox * msg) :=
   match mb_alive uid b with
   | None => None
   | Some m =>
-    Some (MkBox (mb_readonly b) (mb_max_uid b) (remove_msg uid (mb_msgs b)) (m :: mb_dead b)
+    Some (MkBox (mb_md b) (mb_readonly b) (mb_max_uid b) (remove_msg uid (mb_msgs b)) (m :: mb_dead b)
                 (ms_expunge [uid] (mb_log b)), m)
   end.
 
-Definition mb_get (uid : N) (b : mbox) : option (msg * bool) :=
+(* get(uid, cached_msg); [cf] = the permanent flags of the session's cached message.
+   dict: IndexError outside 1.._max_uid; a removed message is the aliased orphan.
+   maildir: no uidlist record or no file -> Message.copy_expunged(cached_msg), i.e. the
+   session's own snapshot. *)
+Definition mb_get (uid : N) (cf : option flags) (b : mbox) : option (msg * bool) :=
+  if mb_md b
+  then match mb_alive uid b with
+       | Some m => Some (m, false)
+       | None => match cf with
+                 | Some f => Some (MkMsg uid f false 0, true)
+                 | None => None
+                 end
+       end
+  else
   if (uid <? 1)%N || (mb_max_uid b <? uid)%N then None
   else match mb_alive uid b with
        | Some m => Some (m, false)
@@ -100,35 +128,37 @@ Definition mb_get (uid : N) (b : mbox) : option (msg * bool) :=
                  end
        end.
 
-Definition mb_update (uid : N) (op : flagop) (fl : flags) (b : mbox) : option (mbox * msg * bool) :=
-  match mb_get uid b with
+Definition mb_update (uid : N) (cf : option flags) (op : flagop) (fl : flags) (b : mbox)
+  : option (mbox * msg * bool) :=
+  match mb_get uid cf b with
   | None => None
   | Some (m, true) =>
     Some (b, MkMsg (m_uid m) (flagop_apply op (m_flags m) fl) (m_recent m) (m_content m), true)
   | Some (m, false) =>
-    let m' := MkMsg (m_uid m) (flagop_apply op (m_flags m) fl) (m_recent m) (m_content m) in
-    Some (MkBox (mb_readonly b) (mb_max_uid b) (replace_msg m' (mb_msgs b)) (mb_dead b)
+    let m' := MkMsg (m_uid m) (storable (mb_md b) (flagop_apply op (m_flags m) fl))
+                    (m_recent m) (m_content m) in
+    Some (MkBox (mb_md b) (mb_readonly b) (mb_max_uid b) (replace_msg m' (mb_msgs b)) (mb_dead b)
                 (ms_update [uid] (mb_log b)), m', false)
   end.
 
 (* update() as it was before fix 5ba4819: also logs an update for an expunged uid *)
 Definition mb_update_unguarded (uid : N) (op : flagop) (fl : flags) (b : mbox)
   : option (mbox * msg * bool) :=
-  match mb_update uid op fl b with
+  match mb_update uid None op fl b with
   | Some (b', m, true) => Some (with_log b' (ms_update [uid] (mb_log b')), m, true)
   | r => r
   end.
 
 Definition mb_delete (uids : list N) (b : mbox) : mbox :=
   let gone := filter (fun m => nmem (m_uid m) uids) (mb_msgs b) in
-  MkBox (mb_readonly b) (mb_max_uid b)
+  MkBox (mb_md b) (mb_readonly b) (mb_max_uid b)
         (filter (fun m => negb (nmem (m_uid m) uids)) (mb_msgs b))
         (gone ++ mb_dead b)
         (ms_expunge uids (mb_log b)).
 
 Definition mb_claim_recent (b : mbox) : mbox * list N :=
   let uids := map m_uid (filter m_recent (mb_msgs b)) in
-  (MkBox (mb_readonly b) (mb_max_uid b)
+  (MkBox (mb_md b) (mb_readonly b) (mb_max_uid b)
          (map (fun m => MkMsg (m_uid m) (m_flags m) false (m_content m)) (mb_msgs b))
          (mb_dead b) (ms_update uids (mb_log b)), uids).
 
